@@ -89,6 +89,18 @@ def t_history(hist):
         prove("rejected-request-not-reported",
               rep[0] != steps and rep[2] != steps,
               info={"reported": repr(rep), "rejected": repr(steps)})
+        # whatever the curve reports after the rejection must be what its data are
+        rep_steps = rep[2] if rep[2] is not None else rep[0]
+        rep_opts = rep[3] if rep[3] is not None else rep[1]
+        witness_curve = s.curve()
+        try:
+            witness_curve.apply_preprocessing(copy.deepcopy(rep_steps or []), options=copy.deepcopy(rep_opts or {}))
+            prove("reported-pipeline-matches-data-after-rejection",
+                  hc.columns_equal(hc.columns(idnt), hc.columns(witness_curve))
+                  and list(idnt.preprocessing) == list(rep_steps or []),
+                  info={"reported": repr(rep)})
+        except (ValueError, KeyError, TypeError) as e:
+            prove("reported-pipeline-matches-data-after-rejection", False, info={"reported": repr(rep), "e": repr(e)})
         again = hc.request(s, idnt, name, via)
         prove("rejected-again-when-repeated", again is not None and type(again) is type(exp),
               info={"second attempt": repr(again)})
@@ -147,8 +159,18 @@ if exp is None and outs[-1] is None:
     if a.preprocessing != steps or a.fit_properties.get("preprocessing") != steps:
         bad.append("request not reported")
 elif exp is not None and outs[-1] is not None:
+    FIT = ("fit", "fit residuals", "fit range")
     if a.preprocessing == steps or a.fit_properties.get("preprocessing") == steps:
         bad.append(f"rejected request reported as applied: preprocessing={{a.preprocessing}} fit_properties={{a.fit_properties.get('preprocessing')}}")
+    rs = a.fit_properties.get("preprocessing", a.preprocessing); ro = a.fit_properties.get("preprocessing_options", a.preprocessing_options)
+    c = curve()
+    try:
+        c.apply_preprocessing(copy.deepcopy(rs or []), options=copy.deepcopy(ro or dict()))
+        ca = [k for k in a.columns if k not in FIT]; cc = [k for k in c.columns if k not in FIT]
+        if set(ca) != set(cc) or any(not np.array_equal(a[k], c[k], equal_nan=True) for k in cc) or list(a.preprocessing) != list(rs or []):
+            bad.append(f"after the rejection the curve reports {{rs}} but its data are not those of that pipeline (columns {{sorted(ca)}})")
+    except (ValueError, KeyError, TypeError) as e:
+        bad.append(f"reported pipeline {{rs}} is itself rejected: {{e!r}}")
     again = request(a, name, via)
     if again is None:
         bad.append("rejected request silently accepted when repeated")
